@@ -35,7 +35,8 @@ theorem goodDelta_empty (objSize : Nat → Option Nat) : GoodDelta objSize Tw.Sn
 
 open Classical in
 /-- The concrete snapshot layer as `Ops` (the 64 KiB capacity of the glue's buffer is not
-represented: `write` succeeds whenever the sizes agree). -/
+represented: `write` succeeds whenever the sizes agree), with the glue of `server/src/main.rs`
+(which never sends `SnapEmpty`). -/
 noncomputable def snapOps (objSize : Nat → Option Nat) :
     Ops { s : Tw.Snap.Snap // GoodSnap objSize s } { d : Tw.Snap.Delta // GoodDelta objSize d } where
   empty := ⟨Tw.Snap.Snap.empty, goodSnap_empty objSize⟩
@@ -54,6 +55,8 @@ noncomputable def snapOps (objSize : Nat → Option Nat) :
     | .err e => .error e.name
     | .panic p => .error p
   crc s := s.1.crc
+  same _ _ := false
+  emptyWhenSame := false
 
 theorem packInts_ne_nil {x : Int} {xs : List Int} : packInts (x :: xs) ≠ [] := by
   rw [packInts_cons]
@@ -93,6 +96,7 @@ theorem snapOps_laws (objSize : Nat → Option Nat) : Laws (snapOps objSize) whe
     subst hw
     simp only [enc, if_true] at hr
     simp only [snapOps, hr, d.2, dite_true]
+  same_clear := by intro a b h; simp [snapOps] at h
   write_nonempty := by
     intro d bs h
     simp only [snapOps, Option.map_eq_some_iff] at h
